@@ -795,3 +795,28 @@ def gcp_view_state(prog: Program) -> List[Instance]:
                             f"reads the view affine (state read: {sorted(reads)})" if ok else
                             f"GeoBox.{name} is computed from the affine, but GCPGeoBox.{name} reads only {sorted(reads)}: after crop/zoom/flip it still answers for the uncropped, unscaled image", m.where()))
     return out
+
+
+def gridspec_polygon_filter(prog: Program) -> List[Instance]:
+    """C14: GridSpec.tiles_from_geopolygon yields a tile only when the query is known not to be disjoint
+    from the extent of that very tile - on every path to the yield (a disjunction with any other
+    condition lets bounding-box-only candidates through)."""
+    out: List[Instance] = []
+    f = prog.func("gridspec:GridSpec.tiles_from_geopolygon")
+    cond = Conditions(f.body)
+    ys = [n for n in walk_own(f.node) if isinstance(n, (ast.Yield, ast.YieldFrom))]
+    if not ys:
+        return [Instance("R-GUARDSEQ", f"{f.qual}#yield-under-intersect", UNDET, "no yield found", f.where())]
+    for k, y in enumerate(ys):
+        st = enclosing_stmt(y)
+        yielded = names_in(y.value) if y.value is not None else set()
+        ok = False
+        for e, p in conds_at(cond, st):
+            if isinstance(e, ast.Call) and call_name(e) in ("disjoint", "intersects") and ((call_name(e) == "disjoint" and not p) or (call_name(e) == "intersects" and p)):
+                ext = [x for a in e.args for x in ast.walk(a) if isinstance(x, ast.Attribute) and x.attr == "extent"]
+                if ext and names_in(ext[0].value) & yielded:
+                    ok = True
+        out.append(Instance("R-GUARDSEQ", f"{f.qual}#yield-under-intersect:{k}", OK if ok else BAD,
+                            "tile yielded only when the query is not disjoint from that tile's extent" if ok else
+                            f"`{short(st, 60)}` is reachable without the query having been tested against the extent of the yielded tile: tiles that only touch the query's bounding box are returned", f.where(y)))
+    return out
